@@ -162,7 +162,7 @@ func initAllow(path string) bool {
 		"github.com/efficientgo/core/errors",
 		"gonum.org/v1/gonum/floats",
 		"gonum.org/v1/gonum/internal/asm/f64",
-		"container/heap", "sort", "slices", "cmp", "strings", "errors", "math":
+		"container/heap", "sort", "slices", "cmp":
 		return true
 	}
 	return false
